@@ -6,7 +6,8 @@ From Coq Require Import String Ascii List NArith ZArith QArith Bool Lia.
 From Sylt Require Import Syntax.Resolved.
 From Sylt Require Sem.Values Sem.Runtime Sem.SyltSem.
 From Sylt Require Import Back.IR Back.Emit Back.ScopeProofs.
-From Sylt Require Import Pres.EmitAst Pres.EmitRel Pres.Names Pres.LuaFuel Pres.LuaEv Pres.Preamble Pres.Frag.
+From Sylt Require Import Pres.EmitAst Pres.EmitRel Pres.Names Pres.LuaFuel Pres.LuaEv Pres.Preamble.
+From Sylt Require Import Pres.Frag.
 From Sylt Require Import Pres.SimDefs Pres.SimOps Pres.SimVals.
 From Sylt Require Import Lua.LuaAst Lua.LuaMap Lua.LuaNum Lua.LuaProofs Lua.LuaCore.
 Import ListNotations.
@@ -108,6 +109,7 @@ Proof. intros H. unfold aname. rewrite H. reflexivity. Qed.
 
 Section Sim.
 Variable pv : N.
+Variable sv : N.
 Variable bound : N.
 Variable u : counts.
 
@@ -312,17 +314,61 @@ Definition P_eval (n : nat) : Prop :=
   forall g k x ctx c code v c' e st r st' sc l E stL F,
     SyltSem.eval n e x st = (r, st') ->
     expression g x ctx c = Ok ((code, v), c') ->
-    frag_expr pv k sc x = true ->
+    frag_expr pv sv bound k sc x = true ->
     ucovers u code -> ctx_ok l F E c c' ->
     rel pv bound sc e st E stL ->
     interesting r ->
     exists b l', cshape l code b l' c c' /\ c <= v /\ v < c' /\ eval_post ctx sc e F c c' E stL b l' v r st'.
 
+(* statements and statement lists *)
+Definition stmt_post (ctx : N) (sc sc' : list N) (e : senv) (F : list N) (c c' : N) (E : env) (stL : state) (b : block)
+           (r : SyltSem.res senv) (st' : sstate) : Prop :=
+  match r with
+  | SyltSem.RVal e' =>
+      exists E' stL' F', okstepS sc sc' e' st' F c c' E stL b E' stL' F' /\ sext sc e e' /\ incl sc sc'
+  | _ => exit_post ctx sc e c c' E stL b r st'
+  end.
+
+Definition P_exec (n : nat) : Prop :=
+  forall g k s ctx c code c' e st r st' sc sc' l E stL F,
+    SyltSem.exec n e s st = (r, st') -> statement g s ctx c = Ok (code, c') ->
+    frag_stmt pv sv bound k sc s = Some sc' -> ucovers u code -> ctx_ok l F E c c' -> rel pv bound sc e st E stL ->
+    interesting r ->
+    exists b l', cshape l code b l' c c' /\ stmt_post ctx sc sc' e F c c' E stL b r st'.
+
+Definition P_execs (n : nat) : Prop :=
+  forall g k ss ctx c cs c' e st r st' sc sc' l E stL F,
+    SyltSem.exec_block n e ss st = (r, st') -> mapM (fun s => statement g s ctx) ss c = Ok (cs, c') ->
+    frag_stmts pv sv bound k sc ss = Some sc' -> ucovers u (concat cs) -> ctx_ok l F E c c' -> rel pv bound sc e st E stL ->
+    interesting r ->
+    exists b l', cshape l (concat cs) b l' c c' /\ stmt_post ctx sc sc' e F c c' E stL b r st'.
+
+(* the body of an if-branch: its value ends up in the cell p of the result variable `out`, which lives in
+   the enclosing range [lo, hi); seen again from the environment the Lua block started with *)
+Definition bv_post (ctx : N) (sc : list N) (e : senv) (lo hi : N) (E : env) (stL : state) (b : block) (p : positive)
+           (r : SyltSem.res sval) (st' : sstate) : Prop :=
+  match r with
+  | SyltSem.RVal v =>
+      exists E' stL', ExecS E b stL (ROk (E', SigNormal) stL') /\ rel pv bound sc e st' E stL' /\
+                      xkeep lo hi E stL stL' /\ vrel v (get_cell stL' p)
+  | _ => exit_post ctx sc e lo hi E stL b r st'
+  end.
+
+Definition P_bv (n : nat) : Prop :=
+  forall g k body ctx c code c' e st r st' sc sc' l E stL F out p lo hi,
+    SyltSem.block_value n e body st = (r, st') ->
+    lower_eblock (statement g) (expression g) out body ctx c = Ok (code, c') ->
+    frag_stmts pv sv bound k sc body = Some sc' -> ucovers u code -> ctx_ok l F E c c' -> rel pv bound sc e st E stL ->
+    bound <= lo -> lo <= c -> c' <= hi -> lo <= out < hi -> ~ (c <= out < c') ->
+    sget (fmt_var out) E = Some p -> get_cell stL p = VNil -> alut_get l out = None -> 1 <= count_of u out ->
+    interesting r ->
+    exists b l', cshape l code b l' c c' /\ bv_post ctx sc e lo hi E stL b p r st'.
+
 (* the structural half alone: the lowering of a fragment expression is balanced and emits *)
 Definition L_expr (g : nat) : Prop :=
   forall k x ctx c code v c' sc l,
     expression g x ctx c = Ok ((code, v), c') ->
-    frag_expr pv k sc x = true ->
+    frag_expr pv sv bound k sc x = true ->
     exists b l', cshape l code b l' c c' /\ c <= v /\ v < c'.
 
 (* a value computed by a single iis instruction at the end *)
